@@ -1899,15 +1899,16 @@ class Exists(QuantifiedConditional):
     ) -> Iterable[OperationResult]:
         sources = sources or {}
         self._eval_parent_ = parent
-        # Yield once per binding of the variables that are not quantified (the first witness found is kept).
+        # Yield once per binding of everything that does not depend on the quantified variable (the first witness found
+        # is kept). This includes the expressions that enumerate values, e.g., the elements of a flattened collection.
         seen_bindings = set()
         for val in self.condition._evaluate__(sources, parent=self):
             if val.is_false:
                 continue
             binding = tuple(
-                val[var_id].id_
-                for var_id in self.non_quantified_variable_ids
-                if var_id in val
+                (expression_id, val[expression_id].id_)
+                for expression_id in sorted(val.bindings)
+                if expression_id not in self.ids_that_depend_on_the_quantified_variable
             )
             if binding in seen_bindings:
                 continue
@@ -1924,6 +1925,17 @@ class Exists(QuantifiedConditional):
             for v in self.condition._unique_variables_
             if v.value is not self.variable
         ]
+
+    @cached_property
+    def ids_that_depend_on_the_quantified_variable(self) -> typing.Set[int]:
+        """
+        :return: The ids of the quantified variable and of the expressions of the condition that are computed from it.
+        """
+        return {self.variable._id_} | {
+            node._id_
+            for node in self.condition._all_nodes_
+            if any(d is self.variable for d in node._descendants_)
+        }
 
     def _invert_(self):
         return ForAll(self.variable, self.condition._invert_())
